@@ -82,6 +82,19 @@ func genC04(r *rand.Rand, run int, tier string) *vm.Plan {
 				az.Checks = append(az.Checks, ref.Check{Queries: []ref.Rule{{Head: ref.Pred{Name: "query"}, Body: []ref.Pred{{Name: "nobody_states_this", Terms: []ref.Term{ref.Int(int64(k))}}}}}})
 			}
 		}
+		if r.Intn(30) == 0 {
+			// the classic overflows of 64-bit arithmetic, each alone in a check (a failing expression
+			// satisfies nothing) or as the first alternative of a check whose second alternative holds
+			lo, hi := ref.Leaf(ref.Int(-1<<63)), ref.Leaf(ref.Int(1<<63-1))
+			one, two, neg := ref.Leaf(ref.Int(1)), ref.Leaf(ref.Int(2)), ref.Leaf(ref.Int(-1))
+			ov := []ref.Expr{ref.Bin("+", hi, one), ref.Bin("-", lo, one), ref.Bin("*", lo, neg), ref.Bin("*", neg, lo), ref.Bin("*", hi, two), ref.Bin("*", lo, two), ref.Bin("-", neg, hi), ref.Bin("+", lo, neg)}
+			e := ref.Bin("<=", ov[r.Intn(len(ov))], ref.Leaf(ref.Int(0)))
+			c := ref.Check{Queries: []ref.Rule{{Head: ref.Pred{Name: "query"}, Exprs: []ref.Expr{e}}}}
+			if r.Intn(2) == 0 {
+				c.Queries = append(c.Queries, gen.TrueQuery())
+			}
+			az.Checks = append(az.Checks, c)
+		}
 		var qs []ref.Rule
 		if r.Intn(3) == 0 {
 			qs = append(qs, g.Rule())
